@@ -154,14 +154,87 @@ def kwargs_streams(ctx):
         ctx.count('kwargs_streams')
 
 
+def f_kw(x, **kw):
+    return (x, tuple(sorted(kw.items())))
+
+
+def _interleaved(nworkers, extracache, kwa, kwb, n, plan, plain_at):
+    """two streams of ONE decorated function with different keyword sets, consumed interleaved, with plain
+    single-element calls in between; returns the list of (tag, value) observations"""
+    from generatorpipeline import pipeline
+    P = pipeline(nworkers, extracache=extracache)(f_kw)
+    ga = P(iter(range(n)), **kwa)
+    gb = P(iter(range(100, 100 + n)), **kwb)
+    obs = []
+    for step, who in enumerate(plan):
+        if step in plain_at:
+            obs.append(('plain', P(-1)))
+            obs.append(('plainkw', P(-2, z=9)))
+        g = ga if who == 'a' else gb
+        try:
+            obs.append((who, next(g)))
+        except StopIteration:
+            obs.append((who, 'stop'))
+    obs.append(('info', (P.pipe_info().processed, P.pipe_info().yielded)))
+    ga.close()
+    gb.close()
+    return obs
+
+
+def interleaved_cases(ctx):
+    rng = ctx.rng
+    kwsets = [{}, {'a': 1}, {'b': 2, 'c': 'x'}, {'a': 5}]
+    for _ in range(ctx.scale(24, 200)):
+        nworkers = rng.choice([0, 1, 2, 3])
+        extracache = rng.choice([0, 1, 2])
+        kwa, kwb = rng.sample(kwsets, 2)
+        n = rng.choice([2, 4, 7])
+        plan = [rng.choice('ab') for _ in range(rng.randint(2, 2 * n + 2))]
+        plain_at = set(rng.sample(range(len(plan)), min(len(plan), rng.choice([0, 1, 2]))))
+        case = dict(interleaved=True, nworkers=nworkers, extracache=extracache, kwargs_a={k: repr(v) for k, v in kwa.items()},
+                    kwargs_b={k: repr(v) for k, v in kwb.items()}, n=n, plan=''.join(plan), plain_calls_before_steps=sorted(plain_at))
+        ctx.case(('interleaved', nworkers, extracache, sorted(kwa), sorted(kwb), n, ''.join(plan), tuple(sorted(plain_at))), True,
+                 sample=case if len(plan) <= 6 else None)
+        ctx.count('interleaved_streams')
+        st, obs = pipelib.isolated(_interleaved, (nworkers, extracache, kwa, kwb, n, plan, plain_at), timeout=60)
+        if st != 'ok':
+            ctx.fail('interleaved-streams-' + st, 'two interleaved streams of one stage did not finish: %s' % (obs,), case)
+            continue
+        ia = ib = 0
+        taken = 0
+        ok = True
+        for tag, v in obs:
+            if tag == 'plain':
+                want = (-1, ())
+            elif tag == 'plainkw':
+                want = (-2, (('z', 9),))
+            elif tag == 'info':
+                continue
+            elif tag == 'a':
+                want = (ia, tuple(sorted(kwa.items()))) if ia < n else 'stop'
+                ia += 1
+            else:
+                want = (100 + ib, tuple(sorted(kwb.items()))) if ib < n else 'stop'
+                ib += 1
+            if v != want:
+                sig = 'kwargs-leak-between-calls' if (isinstance(v, tuple) and isinstance(want, tuple) and v[0] == want[0]) else 'interleaved-streams-wrong-value'
+                ctx.fail(sig, 'step %r delivered %r, expected %r (keyword arguments given once per call must reach exactly that call\'s elements)' % (
+                    tag, v, want), case)
+                ok = False
+                break
+
+
 def check(ctx):
     element_cases(ctx)
     kwargs_streams(ctx)
+    interleaved_cases(ctx)
 
 
 def replay(ctx, data):
     case = data['case']
-    if 'arg_kind' in case:
+    if case.get('interleaved'):
+        interleaved_cases(ctx)
+    elif 'arg_kind' in case:
         element_cases(ctx)
     else:
         for c, r, m in c01.execute([case], workers=1):
